@@ -1082,6 +1082,12 @@ impl std::fmt::Display for LinkerScriptError {
     }
 }
 
+/// Verification hook (feature `verif`): the real expression parser on a complete input.
+#[cfg(feature = "verif")]
+pub(crate) fn verif_parse_expression(bytes: &[u8]) -> Option<Expression<'_>> {
+    parse_expression.parse(BStr::new(bytes)).ok()
+}
+
 #[cfg(test)]
 mod tests {
     use super::*;
